@@ -102,10 +102,10 @@ Definition cmd_time (c : Scte35Spec.command) : stime :=
   | _ => None
   end.
 
-(* PTS(): (pts_time + pts_adjustment) mod 2^33; the decoder does not touch it for splice_null *)
+(* PTS(): (pts_time + pts_adjustment) mod 2^33; for splice_null (no time) the pts_adjustment itself *)
 Definition expected_pts (s : splice_info) : N :=
   match si_cmd s with
-  | Null => 0
+  | Null => si_pts_adj s
   | c => (st_val (cmd_time c) + si_pts_adj s) mod 8589934592
   end.
 
